@@ -668,7 +668,7 @@ def apply_edit(rng, world, kind):
         del f["items"][i]
         # run-time arguments refer to results by index: shift them
         for it in f["items"]:
-            if it["k"] == "keep":
+            if it["k"] in ("keep", "call"):
                 for a in list(it.get("args", [])) + [x for (_, x) in it.get("kwargs", [])]:
                     if "r" in a:
                         a["r"] = [x if x < i else x - 1 for x in a["r"] if x != i]
